@@ -670,6 +670,52 @@ func init() {
 		},
 		Args: func(g *Gen, s *Snapshot) (string, string) { return "", "" }})
 
+	regQ(&qspec{Name: "Params", Path: base + "Params",
+		Mk:   func(a, b string, pg *query.PageRequest) gogoproto.Message { return &bt.QueryParamsRequest{} },
+		Resp: func() gogoproto.Message { return &bt.QueryParamsResponse{} },
+		Out: func(r gogoproto.Message) (out []string, p *query.PageResponse) {
+			x := r.(*bt.QueryParamsResponse).Params
+			if x == nil {
+				return nil, nil
+			}
+			fee := func(cs sdk.Coins) string {
+				for _, c := range cs {
+					if c.Denom != "" && !c.Amount.IsNil() {
+						return c.Amount.String() + c.Denom
+					}
+				}
+				return "unset"
+			}
+			var ds []string
+			for _, d := range x.AllowedDenoms {
+				ds = append(ds, j(d.BankDenom, d.DisplayDenom, d.Exponent))
+			}
+			return []string{j("creators", strings.Join(sortedCopy(x.AllowedClassCreators), ","), "allowlist", x.AllowlistEnabled, "classfee", fee(x.CreditClassFee),
+				"basketfee", fee(x.BasketFee), "denoms", strings.Join(sortedCopy(ds), ","), "chains", strings.Join(sortedCopy(x.AllowedBridgeChains), ","))}, nil
+		},
+		Want: func(s *Snapshot, a, b string) ([]string, bool) {
+			var cr, ds, ch []string
+			for _, c := range s.Creators {
+				cr = append(cr, AddrStr(c.Address))
+			}
+			for _, d := range s.AllowedDenoms {
+				ds = append(ds, j(d.BankDenom, d.DisplayDenom, d.Exponent))
+			}
+			for _, c := range s.BridgeChains {
+				ch = append(ch, c.ChainName)
+			}
+			cf, bf := "unset", "unset"
+			if s.ClassFee != nil && s.ClassFee.Fee != nil {
+				cf = s.ClassFee.Fee.Amount + s.ClassFee.Fee.Denom
+			}
+			if s.BasketFee != nil && s.BasketFee.Fee != nil {
+				bf = s.BasketFee.Fee.Amount + s.BasketFee.Fee.Denom
+			}
+			return []string{j("creators", strings.Join(sortedCopy(cr), ","), "allowlist", s.Allowlist != nil && s.Allowlist.Enabled, "classfee", cf,
+				"basketfee", bf, "denoms", strings.Join(sortedCopy(ds), ","), "chains", strings.Join(sortedCopy(ch), ","))}, true
+		},
+		Args: func(g *Gen, s *Snapshot) (string, string) { return "", "" }})
+
 	// ---- basket
 	kb := "/regen.ecocredit.basket.v1.Query/"
 	basketDenoms := func(s *Snapshot) (out []string) {
